@@ -639,18 +639,20 @@ def _model_config(repo) -> Dict[str, object]:
 
 # ===================================================================== C12
 _GET_DATA_SCENARIOS = [
-    # name, status_ok, json_raises, is_dict, has_data, has_errors, errors_truthy, expected
-    ("non-2xx", False, None, None, None, None, None, ("raise", "GraphQLClientHttpError")),
-    ("non-2xx with error body", False, False, True, True, True, True, ("raise", "GraphQLClientHttpError")),
-    ("non-2xx, body not JSON", False, True, None, None, None, None, ("raise", "GraphQLClientHttpError")),
-    ("non-2xx, data only body", False, False, True, True, False, False, ("raise", "GraphQLClientHttpError")),
-    ("2xx, body not JSON", True, True, None, None, None, None, ("raise", "GraphQLClientInvalidResponseError")),
-    ("2xx, JSON not an object", True, False, False, None, None, None, ("raise", "GraphQLClientInvalidResponseError")),
-    ("2xx, object without data and errors", True, False, True, False, False, False, ("raise", "GraphQLClientInvalidResponseError")),
-    ("2xx, data only", True, False, True, True, False, False, ("return", "data")),
-    ("2xx, data and empty errors", True, False, True, True, True, False, ("return", "data")),
-    ("2xx, errors only", True, False, True, False, True, True, ("raise", "GraphQLClientGraphQLMultiError")),
-    ("2xx, data and errors", True, False, True, True, True, True, ("raise", "GraphQLClientGraphQLMultiError")),
+    # name, status class ('2xx' | '3xx' (also 1xx) | '4xx' (also 5xx)), json_raises, is_dict, has_data, has_errors, errors_truthy, expected
+    ("non-2xx", "4xx", None, None, None, None, None, ("raise", "GraphQLClientHttpError")),
+    ("non-2xx with error body", "4xx", False, True, True, True, True, ("raise", "GraphQLClientHttpError")),
+    ("non-2xx, body not JSON", "4xx", True, None, None, None, None, ("raise", "GraphQLClientHttpError")),
+    ("non-2xx, data only body", "4xx", False, True, True, False, False, ("raise", "GraphQLClientHttpError")),
+    ("1xx/3xx status with a data body", "3xx", False, True, True, False, False, ("raise", "GraphQLClientHttpError")),
+    ("1xx/3xx status, body not JSON", "3xx", True, None, None, None, None, ("raise", "GraphQLClientHttpError")),
+    ("2xx, body not JSON", "2xx", True, None, None, None, None, ("raise", "GraphQLClientInvalidResponseError")),
+    ("2xx, JSON not an object", "2xx", False, False, None, None, None, ("raise", "GraphQLClientInvalidResponseError")),
+    ("2xx, object without data and errors", "2xx", False, True, False, False, False, ("raise", "GraphQLClientInvalidResponseError")),
+    ("2xx, data only", "2xx", False, True, True, False, False, ("return", "data")),
+    ("2xx, data and empty errors", "2xx", False, True, True, True, False, ("return", "data")),
+    ("2xx, errors only", "2xx", False, True, False, True, True, ("raise", "GraphQLClientGraphQLMultiError")),
+    ("2xx, data and errors", "2xx", False, True, True, True, True, ("raise", "GraphQLClientGraphQLMultiError")),
 ]
 
 
@@ -668,9 +670,13 @@ def _get_data_atom(resp: str, scn):
     def atom(e):
         t = norm(strip_pre(e))
         if t == f"{resp}.is_success":
-            return status_ok
-        if t in (f"{resp}.is_error", f"{resp}.is_client_error or {resp}.is_server_error"):
-            return None if status_ok is None else (not status_ok)
+            return status_ok == "2xx"
+        if t == f"{resp}.is_error":
+            return status_ok == "4xx"  # httpx: 4xx and 5xx only - a 3xx/1xx response is neither success nor error
+        if t in (f"{resp}.is_client_error", f"{resp}.is_server_error"):
+            return None if status_ok == "4xx" else False
+        if t in (f"{resp}.is_redirect", f"{resp}.is_informational", f"{resp}.has_redirect_location"):
+            return None if status_ok == "3xx" else False
         if t == f"isinstance({J}, dict)":
             return is_dict
         if t == f"'data' in {J}":
@@ -686,7 +692,7 @@ def _get_data_atom(resp: str, scn):
 
 
 @rule("C12.R1", "get_data classifies every response class into the documented outcome (decision table over the CFG)",
-      min_instances=44)
+      min_instances=52)
 def c12_r1(ctx):
     for tag, ci in client_classes(ctx.repo).items():
         fi = _method(ci, "get_data")
@@ -696,8 +702,7 @@ def c12_r1(ctx):
             name, status_ok, json_raises = scn[0], scn[1], scn[2]
             want = scn[-1]
             raises = (lambda c: "ValueError" if norm(c) == J and json_raises else None)
-            catches = lambda handler, exc: handler == exc or (exc == "ValueError" and handler in ("ValueError", "Exception")) or \
-                (handler in ("JSONDecodeError",) and exc == "ValueError")
+            catches = lambda handler, exc: handler == exc or (exc == "ValueError" and handler in ("ValueError", "Exception", "BaseException"))
             it = Interp(fi, _get_data_atom(resp, scn), raises=raises, catches=catches)
             outs = it.run()
             got = set()
@@ -729,7 +734,7 @@ def c12_r2(ctx):
         # collect raise expressions with aliases resolved (status not ok / decode fails / errors present)
         def collect(scn, json_raises=False):
             raises = (lambda c: "ValueError" if norm(c) == J and json_raises else None)
-            catches = lambda handler, exc: handler in ("ValueError", "Exception", "JSONDecodeError", exc)
+            catches = lambda handler, exc: handler in ("ValueError", "Exception", "BaseException", exc)
             return Interp(fi, _get_data_atom(resp, scn), raises=raises, catches=catches).run()
         o = collect(_scn('non-2xx'))
         good = len(o) == 1 and isinstance(o[0].value, ast.Call) and norm(kw(o[0].value, "status_code") or o[0].value.args[0] if (o[0].value.args or kw(o[0].value, "status_code")) else ast.Constant(0)) == f"{resp}.status_code" \
@@ -1042,8 +1047,8 @@ def c13_r3(ctx):
         P = f"{D}.get('payload', {{}})"
 
         def run(msg_type, expected=None, has_data=None, non_json=False):
-            raises = (lambda c: "JSONDecodeError" if non_json and norm(c) == D else None)
-            catches = lambda h, e: h == e or (e == "JSONDecodeError" and h in ("ValueError", "JSONDecodeError", "Exception"))
+            raises = (lambda c: "ValueError" if non_json and norm(c) == D else None)
+            catches = lambda h, e: h == e or (e == "ValueError" and h in ("ValueError", "Exception", "BaseException"))
             it = Interp(fi, _handler_atom(msg_type, members, expected, has_data, D), raises=raises, catches=catches, is_effect=eff)
             return it.run(), it
 
